@@ -371,5 +371,9 @@ def run(ctx):
     # ---------------------------------------------------------------- C18.ARGS
     from ..rules_common import check_call_arguments
     check_call_arguments(ctx, "C18.ARGS", "C18")
+    from ..rules_common import check_effect_tables
+    check_effect_tables(ctx, "C18")
+    from ..rules_common import check_presence_tests, ARG_SCOPE
+    check_presence_tests(ctx, "C18.PRESENCE", classes=ARG_SCOPE.get("C18", []))
 
 
